@@ -21,7 +21,7 @@ ASSUMPTIONS = [
     "a library name absent from the golden tables is counted as unverified, not as a violation",
 ]
 REQUIRED = ["number_renders_name", "number_renders_digits", "name_ok", "proto_name_ok",
-            "vocab_ace_ok", "platform_switch_ok"]
+            "vocab_ace_ok", "platform_switch_ok", "generated_ok"]
 PLATFORMS = ("asa", "ios", "nxos")
 VERSIONS = ("", "15.2(4)M", "16.9.6", "9.3(8)")
 CHUNK = 8192
@@ -38,6 +38,7 @@ def describe(tier, seed):
 
 def units(tier, seed):
     out = [dict(kind="tables"), dict(kind="protocols"), dict(kind="platform_switch")]
+    out += [dict(kind="generated", platform=p, proto=pr) for p in PLATFORMS for pr in ("tcp", "udp")]
     for plat in PLATFORMS:
         for ver in VERSIONS:
             for proto in ("tcp", "udp"):
@@ -61,6 +62,8 @@ def run_unit(unit, ctx):
         _tables(ctx)
     elif kind == "platform_switch":
         _platform_switch(ctx)
+    elif kind == "generated":
+        _generated(unit["platform"], unit["proto"], ctx)
 
 
 def replay(case, ctx):
@@ -74,6 +77,8 @@ def replay(case, ctx):
         _protocols(ctx)
     elif kind == "platform_switch":
         _platform_switch(ctx)
+    elif kind == "generated":
+        _generated(case["platform"], case["proto"], ctx)
     else:
         _tables(ctx)
 
@@ -298,6 +303,81 @@ def _protocols(ctx):
                         ctx.viol("Ace:proto_switch_changes_number", case, ace.protocol.number,
                                  golden.PROTO.get(name))
     ctx.sample("protocol", dict(platform="ios", number=6))
+
+
+def _generated(platform, proto, ctx):
+    """range_ports()/range_protocols() render numbers too: the name they choose must come from the
+    table of the requested platform, be read back there as the same number, and port_nr /
+    protocol_nr must give digits."""
+    from cisco_acl import Ace, range_ports, range_protocols
+    from cisco_acl.port_name import PortName
+
+    table = PortName(protocol=proto, platform=platform).names()
+    numbers = sorted(set(golden.PORTS[proto].values()) | set(table.values()) | {1, 4000, 65535})
+    for n in numbers:
+        for side in ("srcports", "dstports"):
+            for port_nr in (False, True):
+                ctx.ev()
+                ctx.nt_count()
+                case = dict(kind="generated", platform=platform, proto=proto, number=n, side=side,
+                            port_nr=port_nr)
+                try:
+                    lines = range_ports(**{side: str(n)}, line=f"permit {proto} any any",
+                                        platform=platform, port_nr=port_nr)
+                    if len(lines) != 1:
+                        ctx.viol("range_ports:line_count", case, lines, "one line")
+                        continue
+                    toks = lines[0].split()
+                    tok = toks[toks.index("eq") + 1]
+                    if tok.isdigit():
+                        if int(tok) != n:
+                            ctx.viol("range_ports:number_changed", case, lines[0], n)
+                            continue
+                    elif port_nr:
+                        ctx.viol("range_ports:port_nr_renders_name", case, lines[0], str(n))
+                        continue
+                    elif table.get(tok) != n:
+                        ctx.viol("range_ports:name_not_in_platform_table", case, lines[0],
+                                 f"a {platform} name of {n} or the number")
+                        continue
+                    ace = Ace(lines[0], platform=platform)
+                    port = ace.srcport if side == "srcports" else ace.dstport
+                    if port.ports != [n]:
+                        ctx.viol("range_ports:reparse_differs", case, dict(line=lines[0],
+                                                                           ports=port.ports[:5]), [n])
+                        continue
+                    ctx.out("generated_ok")
+                except (ValueError, TypeError) as ex:
+                    ctx.viol("range_ports:rejected", case, repr(ex), "a line accepted on the platform")
+    if proto == "tcp":
+        import cisco_acl.protocol as pr
+
+        ptable = dict(asa=pr.PROTOCOLS_ASA, ios=pr.PROTOCOLS_IOS, nxos=pr.PROTOCOLS_NXOS)[platform]
+        for n in range(256):
+            for protocol_nr in (False, True):
+                ctx.ev()
+                ctx.nt_count()
+                case = dict(kind="generated", platform=platform, proto=proto, protocol=n,
+                            protocol_nr=protocol_nr)
+                try:
+                    lines = range_protocols(protocols=str(n), line="permit ip any any",
+                                            platform=platform, protocol_nr=protocol_nr)
+                    tok = lines[0].split()[1]
+                    if len(lines) != 1:
+                        ctx.viol("range_protocols:line_count", case, lines, "one line")
+                    elif tok.isdigit() and int(tok) != n:
+                        ctx.viol("range_protocols:number_changed", case, lines[0], n)
+                    elif not tok.isdigit() and protocol_nr:
+                        ctx.viol("range_protocols:protocol_nr_renders_name", case, lines[0], str(n))
+                    elif not tok.isdigit() and (ptable.get(tok) != n or golden.PROTO.get(tok, n) != n):
+                        ctx.viol("range_protocols:name_not_in_platform_table", case, lines[0], n)
+                    elif Ace(lines[0], platform=platform).protocol.number != n:
+                        ctx.viol("range_protocols:reparse_differs", case, lines[0], n)
+                    else:
+                        ctx.out("generated_ok")
+                except (ValueError, TypeError) as ex:
+                    ctx.viol("range_protocols:rejected", case, repr(ex), "a line accepted on the platform")
+    ctx.sample("generated", dict(platform=platform, proto=proto, numbers=len(numbers)))
 
 
 def _platform_switch(ctx):
